@@ -130,7 +130,7 @@ where
     let diff_pattern = format!(r"^\+\+\+\s(?:.*?/){{{skip_prefix}}}(\S*)");
     let diff_pattern = Regex::new(&diff_pattern).unwrap();
 
-    let lines_pattern = Regex::new(r"^@@.*\+(\d+)(,(\d+))?").unwrap();
+    let lines_pattern = Regex::new(r"^@@ -\d+(?:,\d+)? \+(\d+)(,(\d+))?").unwrap();
 
     let file_filter = Regex::new(&format!("^{file_filter}$"))?;
 
